@@ -327,6 +327,16 @@ Clause(f, o) ==
   ELSE ""
 
 \* ---------------------------------------------------------------- verdict -----------------------------------
+ClauseOrder == <<"length", "longer-than-15", "prefix-kind", "duplicate-prefix", "evex-reserved-bits", "extension-bit-in-32-bit-mode", "opcode", "pp-mm",
+                 "w-bit", "vector-length", "legacy-prefix-before-vex", "prefix-66", "prefix-F2", "prefix-F3", "U-rep-prefix-not-allowed-by-row",
+                 "U-hle-prefix-not-allowed-by-row", "prefix-lock", "lock-needs-lockable-memory-destination", "prefix-9B", "prefix-67", "segment-prefix",
+                 "modrm-digit", "modrm-rm-fixed", "modrm-mod", "unused-R", "unused-XB", "unused-vvvv", "decoration-without-evex", "evex-aaa", "evex-z",
+                 "U-evex-z-not-allowed-by-row", "U-evex-mask-not-allowed-by-row", "U-evex-gather-scatter-needs-a-mask", "evex-b", "evex-rounding",
+                 "evex-sae", "option-vex3", "option-rex">>
+ClauseRank(c) == IF c = "" THEN 100
+                 ELSE IF \E j \in 1..Len(ClauseOrder) : ClauseOrder[j] = c THEN CHOOSE j \in 1..Len(ClauseOrder) : ClauseOrder[j] = c
+                 ELSE 60          \* operand field clauses come last
+
 CandSeq(o) == IF o.n \in DOMAIN Names THEN Names[o.n] ELSE <<>>
 Cands(o) == {CandSeq(o)[j] : j \in 1..Len(CandSeq(o))}
 Fitting(o) == {k \in Cands(o) : ArchOk(Forms[k], o.m) /\ Shape(Forms[k], o)}
@@ -344,6 +354,11 @@ Norm(o) ==
   IF o.n = "lea" /\ Len(o.ops) = 2 /\ o.ops[1].t = "r" /\ o.ops[1].c = "gpq" /\ o.ops[2].t = "m" /\ o.ops[2].bt = "" /\ o.ops[2].it = ""
      /\ HighAll(o.ops[2].d, 4, 0) /\ o.ops[2].d[4] >= 128 /\ ~(72 \in {o.b[j] : j \in 1..Len(o.b)} \/ 76 \in {o.b[j] : j \in 1..Len(o.b)})
   THEN [o EXCEPT !.ops[1].c = "gpd"]
+  ELSE IF o.n = "lea" /\ o.m = 64 /\ Len(o.ops) = 2 /\ o.ops[1].t = "r" /\ o.ops[1].c \in {"gpw", "gpd"} /\ o.ops[2].t = "m" /\ o.ops[2].bt = "" /\ o.ops[2].it = ""
+          /\ HighAll(o.ops[2].d, 4, 0) /\ o.ops[2].d[4] >= 128
+  THEN [o EXCEPT !.ops[2].d = SExt(Low(o.ops[2].d, 4), 8)]          \* destination <= 32 bits: sign- and zero-extended address give the same result
+  ELSE IF o.n = "xchg" /\ o.m = 64 /\ o.b = <<144>> /\ Len(o.ops) = 2 /\ o.ops[1] = o.ops[2] /\ o.ops[1].t = "r" /\ o.ops[1].c = "gpq" /\ o.ops[1].id = 0
+  THEN [o EXCEPT !.ops[1].c = "gpd", !.ops[2].c = "gpd"]               \* xchg rax,rax = nop = 90
   ELSE IF o.n \in {"ret", "retf"} /\ Len(o.ops) = 1 /\ o.ops[1].t = "i" /\ HighAll(o.ops[1].v, 0, 0) /\ Len(o.b) = 1
   THEN [o EXCEPT !.ops = <<>>]
   ELSE o
@@ -360,7 +375,9 @@ Verdict(o0) ==
           ELSE IF fit # okf THEN <<"U", "row-kind-not-modelled", 0>>
           ELSE IF \E k \in okf : Clause(Forms[k], o) \in UC
                THEN <<"U", Clause(Forms[CHOOSE k \in okf : Clause(Forms[k], o) \in UC], o), 0>>      \* bytes fit a row but for a decoration / prefix the row does not allow: C13
-          ELSE LET k == IF o.f \in okf THEN o.f ELSE CHOOSE k \in okf : \A k2 \in okf : k <= k2
+          ELSE LET rk(k) == ClauseRank(Clause(Forms[k], o))               \* diagnose against the row that fits furthest
+                   best == {k \in okf : \A k2 \in okf : rk(k) >= rk(k2)}
+                   k == IF o.f \in best THEN o.f ELSE CHOOSE k \in best : \A k2 \in best : k <= k2
                    c == Clause(Forms[k], o)
                IN <<"R", IF c = "" THEN "option" ELSE c, k>>
 =============================================================================
